@@ -64,6 +64,12 @@ func loadPropMeta(id string) PropMeta {
 	return all[id]
 }
 
+type detPending struct {
+	a, b    *Leaf
+	asserts []*Term
+	size    int
+}
+
 var candSiteCount map[string]int
 
 type candidate struct {
@@ -283,6 +289,126 @@ func cmdCheck(args []string) int {
 		}
 	}
 
+	// relational determinism obligations (verifDeterministic): leaves of one harness that made the
+	// same nondetChoice decisions differ only in schedule choices (map order, capacity); whenever two
+	// of them can be reached by the same inputs their values must be equal.
+	for _, r := range results {
+		groups := map[string][]*Leaf{}
+		for _, lf := range r.Leaves {
+			if lf.Outcome != "ok" || len(lf.DetObs) == 0 {
+				continue
+			}
+			var ks []string
+			for k, c := range lf.Choices {
+				ks = append(ks, fmt.Sprintf("%s=%d", k, c))
+			}
+			sort.Strings(ks)
+			groups[strings.Join(ks, ",")] = append(groups[strings.Join(ks, ",")], lf)
+		}
+		var gkeys []string
+		for k := range groups {
+			gkeys = append(gkeys, k)
+		}
+		sort.Strings(gkeys)
+		var pending, jobs []detPending
+		for _, gk := range gkeys {
+			ls := groups[gk]
+			sort.Slice(ls, func(i, j int) bool { return ls[i].PathID < ls[j].PathID })
+			for i := 0; i < len(ls); i++ {
+				for j := i + 1; j < len(ls); j++ {
+					// star comparison: every leaf against the first and the last leaf of its group
+					if len(ls) > 8 && i != 0 && j != len(ls)-1 {
+						continue
+					}
+					a, b := ls[i], ls[j]
+					n := len(a.DetObs)
+					if len(b.DetObs) < n {
+						n = len(b.DetObs)
+					}
+					var diffs []*Term
+					ma, mb := map[*Term]*Term{}, map[*Term]*Term{}
+					for k := 0; k < n; k++ {
+						if a.DetObs[k].Label != b.DetObs[k].Label {
+							continue
+						}
+						diffs = append(diffs, mkNot(mkEq(renameFresh(a.DetObs[k].Val, "@a", ma), renameFresh(b.DetObs[k].Val, "@b", mb))))
+					}
+					differ := mkOr(diffs...)
+					nOblig++
+					if differ.IsFalse() {
+						nDischarged++
+						nFolded++
+						continue
+					}
+					var asserts []*Term
+					for _, c := range a.PC {
+						asserts = append(asserts, renameFresh(c, "@a", ma))
+					}
+					for _, c := range b.PC {
+						asserts = append(asserts, renameFresh(c, "@b", mb))
+					}
+					asserts = append(asserts, differ)
+					jobs = append(jobs, detPending{a: a, b: b, asserts: asserts, size: len(asserts)})
+				}
+			}
+		}
+		// decide the pair queries in parallel
+		{
+			results := make([]string, len(jobs))
+			var wg2 sync.WaitGroup
+			sem := make(chan bool, *workers-1)
+			for ji := range jobs {
+				wg2.Add(1)
+				sem <- true
+				go func(ji int) {
+					defer wg2.Done()
+					defer func() { <-sem }()
+					s2 := borrowSolvers()
+					defer returnSolvers(s2)
+					results[ji] = s2.decide(jobs[ji].asserts, nil, 4000, true).Result
+				}(ji)
+			}
+			wg2.Wait()
+			for ji, res := range results {
+				if res == "unsat" {
+					nDischarged++
+					solverAgree["unsat_relational"]++
+				} else {
+					pending = append(pending, jobs[ji])
+				}
+			}
+		}
+		// undecided / satisfiable pairs: search counterexamples for the smallest ones first
+		sort.SliceStable(pending, func(i, j int) bool { return pending[i].size < pending[j].size })
+		label := "same inputs, different schedule, same bytes"
+		for n, pd := range pending {
+			if n >= 3 {
+				unrefined[r.Name+"/"+label]++
+				continue
+			}
+			nd := map[string]*Term{}
+			for k, t := range pd.a.Nondets {
+				nd[k] = t
+			}
+			for k, t := range pd.b.Nondets {
+				nd[k] = t
+			}
+			names, nts := leafNondets(&Leaf{Nondets: nd})
+			mr := solveModelB(ss, pd.asserts, names, nts, nil, 3000, true, time.Now().Add(25*time.Second), 4)
+			switch mr.Status {
+			case "unsat":
+				nDischarged++
+			case "sat":
+				o := &Oblig{Harness: r.Name, Label: label, PathID: pd.a.PathID + " vs " + pd.b.PathID, Status: "violated-candidate", Model: mr.Model, Choices: pd.a.Choices, Ambient: true, Finding: detFinding[r.Name]}
+				c := &candidate{ob: o, kind: "determinism", finding: detFinding[r.Name]}
+				c.vec = vectorFromModel(r.Name, fmt.Sprintf("cand-%d", len(cands)), mr.Model, pd.a.Choices, tier)
+				cands = append(cands, c)
+			default:
+				inconclusive = append(inconclusive, fmt.Sprintf("%s: schedules %s and %s: %s", r.Name, pd.a.PathID, pd.b.PathID, mr.Reason))
+			}
+		}
+	}
+
 	// keep at most 3 candidates per (harness, assertion): the rest are counted, not replayed
 	{
 		perSite := map[string]int{}
@@ -318,6 +444,9 @@ func cmdCheck(args []string) int {
 	// ambient (map order / capacity) candidates that did not reproduce once: repeat
 	var again []Vector
 	confirmedOnce := func(c *candidate, rs []*NativeRun) bool {
+		if c.kind == "determinism" {
+			return detDiffer(rs)
+		}
 		for _, r := range rs {
 			if candidateReproduced(c, r) {
 				return true
@@ -345,6 +474,16 @@ func cmdCheck(args []string) int {
 	var violationLines []string
 	for _, c := range cands {
 		if confirmedOnce(c, runs[c.vec.ID]) {
+			if c.kind == "determinism" && c.finding != "" {
+				if _, open := knownOpen[c.finding]; open {
+					if !knownHits[c.finding] {
+						knownHits[c.finding] = true
+						fmt.Printf("KNOWN-FINDING: property=%s %s [%s] harness=%s\n", id, knownOpen[c.finding].What, c.finding, c.ob.Harness)
+					}
+					nDischarged++
+					continue
+				}
+			}
 			if c.kind == "known" {
 				if !knownHits[c.finding] {
 					knownHits[c.finding] = true
@@ -380,7 +519,16 @@ func cmdCheck(args []string) int {
 		}
 	}
 	for site, n := range unrefined {
-		if !reportedSite[site+"/assert"] {
+		coveredByKnown := false
+		for h, fid := range detFinding {
+			if strings.HasPrefix(site, h+"/") && knownHits[fid] {
+				coveredByKnown = true
+			}
+		}
+		if coveredByKnown {
+			continue
+		}
+		if !reportedSite[site+"/assert"] && !reportedSite[site+"/determinism"] {
 			inconclusive = append(inconclusive, fmt.Sprintf("%s: %d more path(s) violate this assertion symbolically; none of the replayed counterexamples reproduced", site, n))
 		}
 	}
@@ -574,6 +722,8 @@ func candidateReproduced(c *candidate, r *NativeRun) bool {
 		return false
 	}
 	switch c.kind {
+	case "determinism":
+		return false // decided over the set of repeated runs (detDiffer)
 	case "panic":
 		return r.Panic != ""
 	case "known":
@@ -682,4 +832,38 @@ func nonNil(s []string) []string {
 		return []string{}
 	}
 	return s
+}
+
+// detFinding: harness -> id of the known finding that covers its determinism obligation (if listed open).
+var detFinding = map[string]string{
+	"H_C07_dict_qualkeys": "C07-dict-key-registration-order",
+}
+
+// detDiffer: two native runs of the same vector observed different values for a det: label.
+func detDiffer(rs []*NativeRun) bool {
+	var first map[string]string
+	for _, r := range rs {
+		if r.AssumeOff || r.Panic != "" {
+			continue
+		}
+		cur := map[string]string{}
+		for i, o := range r.Obs {
+			if strings.HasPrefix(o.Label, "det:") {
+				cur[fmt.Sprintf("%s#%d", o.Label, i)] = o.Hex
+			}
+		}
+		if first == nil {
+			first = cur
+			continue
+		}
+		if len(cur) != len(first) {
+			return true
+		}
+		for k, v := range cur {
+			if first[k] != v {
+				return true
+			}
+		}
+	}
+	return false
 }
